@@ -275,6 +275,23 @@ def _orch(p: Dict[str, Any], stats: Dict[str, int]) -> List[Dict[str, Any]]:
                             if not (budgets.get("wall_ms") is not None and ms0 >= int(budgets["wall_ms"])) and str(sched[0].get("reason")) != "BUDGET_T2_K":
                                 bad("yield-reason-precedence:t2-budget", "k_used == t2_k (cache_hit=%s) but the slice yielded with %s; %s" % (
                                     t2_first.get("cache_hit"), sched[0].get("reason"), ctxs))
+                    # the same for T1, from the T1 record itself: a propagation that used up its layer or pop budget exactly ends the
+                    # slice at the T1 boundary, and the reason names that budget unless the wall budget is gone too
+                    t1_ex = [k for k, f in (("t1_iters", "iters"), ("t1_pops", "pops"))
+                             if budgets.get(k) is not None and t1r.get(f) is not None and int(t1r.get(f)) == int(budgets[k])]
+                    if t1_ex and new.get("t1.jsonl"):
+                        stats["t1_budget_exhausted"] = stats.get("t1_budget_exhausted", 0) + 1
+                        if not sched or sched[0].get("stage_end") != "T1":
+                            bad("t1-budget-exhausted-without-yield", "T1 record %s meets %s and the slice ran on (%s); %s" % (
+                                {f: t1r.get(f) for f in ("iters", "pops")}, t1_ex, sched[:1], ctxs))
+                        else:
+                            ms0 = int((sched[0].get("consumed") or {}).get("ms", 0))
+                            if ms0 >= quantum:
+                                stats["t1_budget_exhausted_past_quantum"] = stats.get("t1_budget_exhausted_past_quantum", 0) + 1
+                            if not (budgets.get("wall_ms") is not None and ms0 >= int(budgets["wall_ms"])) and \
+                                    str(sched[0].get("reason")) not in ["BUDGET_" + k.upper() for k in t1_ex]:
+                                bad("yield-reason-precedence:t1-budget", "T1 used up %s but the slice yielded with %s after %d ms; %s" % (
+                                    t1_ex, sched[0].get("reason"), ms0, ctxs))
                     if not sched:
                         continue
                     stats["yields"] = stats.get("yields", 0) + 1
